@@ -32,7 +32,7 @@ class CheckC04(core.Check):
     def plan(self):
         rnd = random.Random(self.seed * 122949823 + 4)
         descs = []
-        pats = ["XX", "N"] if self.tier == "quick" else ["XX", "N", "IK", "K", "NNpsk0", "X1X1", "Xpsk1", "KK"]
+        pats = ["XX", "N"] if self.tier == "quick" else ["XX", "N", "IK", "K", "NNpsk0", "X1X1", "Xpsk1", "KK", "NN", "X", "IX", "NKpsk2"]
         backends = [("D", "D"), ("R", "R"), ("DR", "D"), ("D", "R")]
         for pat in pats:
             for ci in CIPHERS:
